@@ -272,7 +272,14 @@ class Check:
     anchors = []              # repo-relative files whose drift escalates the budget
     rule = ''
     assumptions = []
-    uses_tables = False
+    tables = []               # names of harness/tables/<name>.py modules this check depends on
+    drv_stateful = False
+    # MANIFEST entry (harness/mkmanifest.py reads these)
+    design_ref = ''
+    level_category = 'proof'
+    level_text = ''
+    technique = 'Lean 4 proof + differential correspondence'
+    level_note_extra = ''
 
     def budget(self, tier, escalated):
         return 1
@@ -282,7 +289,7 @@ class Check:
         return []
 
     def corr_stateful(self):
-        return False
+        return self.drv_stateful
 
     def search(self, rng, n, seeds):
         """independent oracle on the real code; return (evaluations, [Finding])"""
@@ -342,7 +349,7 @@ def run_check(chk, tier, seed):
 
     # stage 1: tables
     from harness import extract_tables
-    tables_ok, tables_msg = extract_tables.regenerate()
+    tables_ok, tables_msg = extract_tables.regenerate(only=set(chk.tables))
     if not tables_ok:
         notes.append('table extraction failed: ' + tables_msg)
 
@@ -431,7 +438,7 @@ def run_check(chk, tier, seed):
     samples = [c[2] for c in corr_cases[:: max(1, len(corr_cases) // 5)]][:6]
     distinct = len({c[0] for c in corr_cases if chk.nontrivial(c[2])})
     ev = dict(
-        property_id=pid, tier=tier, seed=seed, level='proof',
+        property_id=pid, tier=tier, seed=seed, level=chk.level_category,
         coverage=dict(
             obligations=len(aud['theorems']),
             discharged=len([t for t in aud['theorems'] if t in aud['axioms'] and
